@@ -83,6 +83,12 @@ CHECKS["C15"] = dict(
 NOT_YET = {}
 
 
+MODELS = {"C01": ["lang"], "C03": ["errorsalg"], "C04": ["incr"], "C07": ["subscribe", "exec"], "C08": ["lang"],
+          "C09": ["lang"], "C10": ["lang"], "C11": ["lang"], "C12": ["compose"], "C14": ["overlap"], "C15": ["coerce"],
+          "C16": ["scalars"], "C20": ["schemaval"], "C02": ["exec"], "C13": ["exec"], "C05": ["workqueue"],
+          "C06": ["lifecycle"], "C17": ["schemaops"], "C18": ["schemaops"], "C19": ["schemaops"]}
+
+
 def main():
     props = [json.loads(l)["id"] for l in open(V / "properties.jsonl")]
     checks = []
@@ -117,6 +123,8 @@ def main():
         "notes": "Fix commits in /repo are listed in known_findings.json.",
     }
     (V / "MANIFEST.json").write_text(json.dumps(man, indent=1))
+    reg = {c["property_id"]: MODELS.get(c["property_id"], []) for c in checks}
+    (V / "harness" / "registry.json").write_text(json.dumps(reg, indent=1))
 
 
 if __name__ == "__main__":
